@@ -132,7 +132,7 @@ def mutants(tree):
 def base_messages(g, lseid):
     """one valid instance (IE bytes) of each dispatched message type -> (name, type, ies bytes, seid or None)"""
     ip = l1.ip
-    sd = "permit out udp from 8.8.8.0/24 53-60 to assigned"
+    sd = "permit out udp from 8.8.8.0/24 65500-65535 to assigned"     # a port range ending at the top of the port space
     pu = {"id": 1, "prec": 10, "iface": 0, "fteid": "choose", "ue": ip(10, 60, 0, 1), "sdf": sd, "ohr": True, "far": 1, "qers": [1, 2]}
     pd = {"id": 2, "prec": 10, "iface": 1, "ue": "chv4", "appid": "app1", "far": 2, "qers": [1, 2]}
     fu = {"id": 1, "action": 2, "fwd": {"dst_if": 1}}
